@@ -4,6 +4,10 @@
 #include "cmap_sweep.h"
 #include "lz4ref.h"
 #include "inc/Decompressor.h"
+#include "inc/Code.h"
+#include "inc/Rule.h"
+#include "inc/Segment.h"
+#include "inc/Machine.h"
 
 // 'M' u32 fontid u32 only(0xFFFFFFFE = all)  -> sweep summary
 inline std::string cmd_cmap(Reader &rd, std::map<uint32_t, std::vector<uint8_t>> &fonts) {
@@ -34,8 +38,60 @@ inline std::string cmd_lz4(Reader &rd) {
     return s;
 }
 
+// 'V' u32 fontid, u8 is_constraint, bytes program -> {"loaded":code status, "ret":.., "status":machine status}
+// The program is loaded by the real bytecode loader (Machine::Code) and run by the real interpreter of this
+// build on a one-slot slot map, as tests/vm does.  opcode_name reports the name column of the opcode table.
+inline std::string cmd_vm(Reader &rd, std::map<uint32_t, std::vector<uint8_t>> &fonts) {
+    using namespace graphite2; using namespace graphite2::vm;
+    uint32_t fid = rd.u32();
+    bool cons = rd.u8() != 0;
+    std::vector<uint8_t> prog = rd.bytes();
+    auto it = fonts.find(fid);
+    if (rd.bad || it == fonts.end() || prog.empty()) return "{\"error\":\"bad vm request\"}";
+    static std::map<uint32_t, std::pair<std::unique_ptr<Exact>, std::unique_ptr<FaceBox>>> faces;
+    auto &slot = faces[fid];
+    if (!slot.second) {
+        slot.first.reset(new Exact(it->second));
+        slot.second.reset(new FaceBox);
+        make_face(*slot.second, slot.first->p, slot.first->n, 0, 0);
+    }
+    gr_face *face = slot.second->face;
+    if (!face) return "{\"error\":\"vm face did not load\"}";
+    const uint32_t txt[1] = {0x61};
+    gr_segment *seg = gr_make_seg(nullptr, face, 0, nullptr, gr_utf32, txt, 1, 0);
+    if (!seg || !seg->first()) { if (seg) gr_seg_destroy(seg); return "{\"error\":\"vm segment\"}"; }
+    std::string out;
+    {
+        Exact pb(prog);
+        Silf silf;
+        Machine::Code code(cons, pb.p, pb.p + pb.n, 0, 1, silf, *face, PASS_TYPE_UNKNOWN);
+        if (!code) out = "{\"loaded\":" + std::to_string(int(code.status())) + ",\"ok\":0}";
+        else {
+            SlotMap smap(*seg, 0, 0);
+            Machine m(smap);
+            smap.pushSlot(seg->first());
+            slotref *map = smap.begin();
+            int32 r = code.run(m, map);
+            out = "{\"loaded\":" + std::to_string(int(code.status())) + ",\"ok\":1,\"ret\":" + std::to_string(r) + ",\"status\":" + std::to_string(int(m.status())) + "}";
+        }
+    }
+    gr_seg_destroy(seg);
+    return out;
+}
+
+// 'O' -> names of the opcode table in on-disk order (cross-check of "table index == opcode number")
+inline std::string cmd_opnames() {
+    using namespace graphite2::vm;
+    const opcode_t *t = Machine::getOpcodeTable();
+    std::string s = "[";
+    for (int i = 0; i < int(MAX_OPCODE); ++i) { if (i) s += ","; s += jstr(t[i].name); }
+    return s + "]";
+}
+
 inline std::string dispatch_components(uint8_t cmd, Reader &rd, std::map<uint32_t, std::vector<uint8_t>> &fonts) {
     if (cmd == 'M') return cmd_cmap(rd, fonts);
     if (cmd == 'L') return cmd_lz4(rd);
+    if (cmd == 'V') return cmd_vm(rd, fonts);
+    if (cmd == 'O') return cmd_opnames();
     return "";
 }
